@@ -32,7 +32,7 @@ def cert? (s : String) : Option Cert :=
   | _ => none
 
 def cacheVal? (s : String) : Option CacheVal :=
-  if s == "miss" then some .miss
+  if s.startsWith "miss" then some .miss
   else if s == "err" then some .err
   else if s == "badkey" then some .badKey
   else (cert? s).map .cert
@@ -54,14 +54,9 @@ def showEv : Ev → String
   | .put k => "u:" ++ toHex k
 
 def showRes : Res → String
-  | .errName => "err-name"
-  | .errIdna => "err-idna"
-  | .errNoToken => "err-notoken"
-  | .errPolicy => "err-policy"
-  | .errCache => "err-cache"
-  | .errIssue => "err-issue"
-  | .token c => s!"token:{c.id}"
-  | .served c => if c.id == 0 then "issued" else s!"served:{c.id}"
+  | .errName | .errIdna | .errNoToken | .errPolicy | .errCache | .errIssue => "err"
+  | .token c => s!"cert:{c.id}"
+  | .served c => if c.id == 0 then "issued" else s!"cert:{c.id}"
   | .issued _ => "issued"
 
 def ktOf (ck : CertKey) : KT := if ck.isRSA then .rsa else .ec
@@ -71,7 +66,7 @@ def ca? (s : String) : Option (CertKey → Option Cert) :=
   if s == "refuse" then some (fun _ => none) else
   (cert? s).map fun c ck =>
     some { c with id := 0, priv := ktOf ck, pub := if c.keyMatch then ktOf ck else c.pub,
-                  keyMatch := c.keyMatch || false }
+                  keyMatch := c.keyMatch }
 
 def hello? (o : Op) (pfx : String) : Option Hello := do
   let name ← o.hex? (pfx ++ "name")
